@@ -22,6 +22,7 @@ EXPLANATION = (
 DECLINED = ["progress of a blocked writer under a continuous reader stream (fairness)"]
 ASSUMPTIONS = ["C04 and C05 rules (re-evaluated as part of this check)"]
 RULES_DOC = dict(common.SHARED_DOC)
+RULES_DOC["X4"] = common.X4_DOC
 RULES_DOC.update({
     "R1": "reader_count / write_flag are accessed only under ABTI_rwlock::mutex; every exit has released it",
     "R2": "reader waits on write_flag only, writer on write_flag||reader_count; state change only after the loop exits with its condition false and no error",
@@ -44,9 +45,17 @@ def _holds_wait_result(F, name):
     for nd in F.nodes:
         if not nd:
             continue
-        for v, rhs in canon._assigned_var(F, nd):
-            if v == name:
-                vals.append(rhs)
+        k = nd.get("k")
+        if k == "decl":
+            vals += [v.get("init") for v in nd["vars"] if v["n"] == name]
+        elif k == "bin" and nd.get("asg"):
+            ln = F.nodes[F.strip(nd["lh"])]
+            if ln.get("k") == "ref" and ln["n"] == name:
+                vals.append(nd["rh"] if nd["op"] == "=" else None)
+        elif k == "un" and nd["op"] in ("post++", "post--", "pre++", "pre--", "&"):
+            en = F.nodes[F.strip(nd["e"])]
+            if en.get("k") == "ref" and en["n"] == name:
+                vals.append(None)       # modified in place or its address escapes
     ok = bool(vals)
     waits = 0
     for rhs in vals:
@@ -59,6 +68,146 @@ def _holds_wait_result(F, name):
         elif not (rn.get("cv") == 0 and rn.get("k") != "ref"):
             ok = False
     return ok and waits >= 1
+
+
+class _NotCombo(Exception):
+    pass
+
+
+_ATOM = {WF: "writer", RC: "readers"}
+
+
+def _combo_eval(F, i, env):
+    """Three-valued value (True / False / None = unknown) of a boolean combination of `write_flag != 0` and
+    `reader_count != 0` given the truth of these two atoms in `env` ({'writer': bool, 'readers': bool});
+    raises _NotCombo when expression i is anything else."""
+    i = F.strip(i)
+    nd = F.nodes[i]
+    k = nd.get("k")
+    if k == "mem":
+        fo = F.field_of(i)
+        lab = _ATOM.get("%s::%s" % fo) if fo else None
+        if lab is None:
+            raise _NotCombo()
+        return env.get(lab)
+    if k == "un" and nd["op"] == "!":
+        v = _combo_eval(F, nd["e"], env)
+        return None if v is None else (not v)
+    if k == "call" and nd.get("fn") in ("__builtin_expect", "ABTU_likely", "ABTU_unlikely") and nd.get("a"):
+        return _combo_eval(F, nd["a"][0], env)
+    if k == "bin" and nd["op"] in ("||", "&&"):
+        a, b = _combo_eval(F, nd["lh"], env), _combo_eval(F, nd["rh"], env)
+        dom = nd["op"] == "||"
+        if a is dom or b is dom:
+            return dom
+        return None if (a is None or b is None) else (not dom)
+    if k == "bin" and nd["op"] in ("==", "!=", ">", "<"):
+        lh, rh = nd["lh"], nd["rh"]
+        if nd["op"] == "<":
+            lh, rh = rh, lh
+        if F.nodes[F.strip(rh)].get("cv") == 0 and F.nodes[F.strip(rh)].get("k") != "ref":
+            v = _combo_eval(F, lh, env)     # x != 0, x > 0 (unsigned counters / flags), x == 0
+            return None if v is None else (v if nd["op"] != "==" else (not v))
+        raise _NotCombo()
+    if k == "cond":
+        tv, ev = F.nodes[F.strip(nd["th"])].get("cv"), F.nodes[F.strip(nd["el"])].get("cv")
+        if tv is not None and ev is not None and bool(tv) != bool(ev):
+            v = _combo_eval(F, nd["c"], env)
+            return None if v is None else (v if tv else (not v))
+        raise _NotCombo()
+    raise _NotCombo()
+
+
+def _combo_fields(F, i):
+    return sorted(set(_ATOM["%s::%s" % F.field_of(j)] for j in F.descendants(F.strip(i))
+                      if F.nodes[j].get("k") == "mem" and F.field_of(j) and "%s::%s" % F.field_of(j) in _ATOM))
+
+
+def _combo_def(F, node):
+    """(expression, neg) when the condition atom `node` tests a local (`x`, `!x`, `x == 0`, `x != 0`) that
+    stands for a boolean combination of the two state atoms: locals are followed through their single
+    reaching definition (a helper's flattened result `ret_<helper>`, a temporary holding the wait
+    condition).  The atom is true iff the expression is true != neg.  None otherwise."""
+    i = F.strip(node)
+    neg = False
+    while True:
+        nd = F.nodes[i]
+        k = nd.get("k")
+        if k == "un" and nd["op"] == "!":
+            neg = not neg
+            i = F.strip(nd["e"])
+        elif k == "call" and nd.get("fn") in ("__builtin_expect", "ABTU_likely", "ABTU_unlikely") and nd.get("a"):
+            i = F.strip(nd["a"][0])
+        elif k == "bin" and nd["op"] in ("==", "!="):
+            zero = [x for x in (nd["lh"], nd["rh"]) if F.nodes[F.strip(x)].get("cv") == 0 and F.nodes[F.strip(x)].get("k") != "ref"]
+            if len(zero) != 1:
+                return None
+            if nd["op"] == "==":
+                neg = not neg
+            i = F.strip(nd["rh"] if zero[0] == nd["lh"] else nd["lh"])
+        else:
+            break
+    hops = 0
+    while F.nodes[i].get("k") == "ref" and F.nodes[i].get("dk") == "var" and hops < 4:
+        d = canon.reaching_def(F, F.nodes[i]["n"], i)
+        if not isinstance(d, int):
+            return None
+        i = F.strip(d)
+        hops += 1
+    if hops == 0:
+        return None
+    try:
+        _combo_eval(F, i, {})
+    except _NotCombo:
+        return None
+    return (i, neg) if _combo_fields(F, i) else None
+
+
+def _expand(F, toks):
+    """The path engine does not correlate a local that holds `a || b` (or `(a || b) ? TRUE : FALSE`) with the
+    branches taken while it was computed, so it enumerates paths on which the local disagrees with its own
+    operands.  Such paths are infeasible: return None for them.  On feasible paths every test of such a
+    local is followed by synthetic atom tests for the operands whose value it implies (an operand that was
+    evaluated as data, not as a branch, e.g. the right operand of `held = a || b`)."""
+    out = []
+    for k, t in enumerate(toks):
+        out.append(t)
+        if not (t[0] == "if" and t[1].startswith("combo@")):
+            continue
+        d = int(t[1][6:].split(":")[0])
+        desc = set(F.descendants(d))
+        # the atom branches of the most recent evaluation of the defining expression: (rd, if) token pairs
+        j = k - 1
+        while j >= 0 and not (toks[j][0] == "rd" and toks[j][-1] in desc):
+            j -= 1
+        env = {}
+        while j >= 0:
+            if toks[j][0] == "rd" and toks[j][-1] in desc:
+                nxt = toks[j + 1] if j + 1 < k else None
+                if nxt is not None and nxt[0] == "if" and nxt[1] == _ATOM.get(toks[j][1]):
+                    env.setdefault(nxt[1], nxt[2])
+                j -= 1
+            elif toks[j][0] == "if" and toks[j][1] in ("writer", "readers") and j >= 1 and toks[j - 1][0] == "rd" and \
+                    toks[j - 1][-1] in desc:
+                j -= 1
+            else:
+                break
+        fields = _combo_fields(F, d)
+        unknown = [f for f in fields if f not in env]
+        sols = []
+        for bits in range(1 << len(unknown)):
+            e = dict(env)
+            for n, f in enumerate(unknown):
+                e[f] = bool(bits >> n & 1)
+            if _combo_eval(F, d, e) == t[2]:
+                sols.append(e)
+        if not sols:
+            return None
+        for f in unknown:
+            vals = set(e[f] for e in sols)
+            if len(vals) == 1:
+                out.append(("if", f, vals.pop(), t[3]))
+    return out
 
 
 def _cond(t, F=None, node=None):
@@ -76,6 +225,13 @@ def _cond(t, F=None, node=None):
         return "wait-err"
     if F is not None and re.match(r"^\w+$", t) and _holds_wait_result(F, t):
         return "wait-err"
+    if F is not None and node is not None:
+        cd = _combo_def(F, node)
+        if cd is not None:
+            # a local holding a boolean combination of the state atoms; the token's truth is that of the
+            # combination (seq reports truth-of-the-canonical-label; undo its flip and apply ours)
+            d, neg = cd
+            return ("combo@%d:%s" % (d, "+".join(_combo_fields(F, d))), canon.cond(F, node)[1] != neg)
     return "other:" + t
 
 
@@ -87,6 +243,33 @@ def _held(toks, i):
         elif t[0] == "call" and t[1] == "ABTI_mutex_unlock" and t[2][-1] == MX:
             held = False
     return held
+
+
+def _norm(t):
+    """(path, op, value) of a store token with the spellings of +1 / -1 unified: x++, ++x, x += 1, x = x + 1."""
+    path, op, v = t[1], t[2], t[3]
+    if (op == "+=" and v == 1) or (op == "=" and str(v) in ("%s + 1" % path, "1 + %s" % path)):
+        return (path, "++", None)
+    if (op == "-=" and v == 1) or (op == "=" and str(v) == "%s - 1" % path):
+        return (path, "--", None)
+    return (path, op, v)
+
+
+_SHORT = {"ABTI_mutex_lock": "lock", "ABTI_mutex_unlock": "unlock", "ABTI_cond_wait": "wait", "ABTI_cond_broadcast": "bcast"}
+
+
+def _sig(toks):
+    """Compact, name-free signature of a path (obligation identity)."""
+    out = []
+    for t in toks:
+        if t[0] == "call":
+            out.append(_SHORT.get(t[1], t[1]))
+        elif t[0] == "if":
+            lab = t[1][6:] if t[1].startswith("other:") else ("combo:" + t[1].split(":", 1)[1] if t[1].startswith("combo@") else t[1])
+            out.append("[%s%s]" % ("" if t[2] else "!", lab))
+        elif t[0] == "st":
+            out.append("%s %s %s" % (t[1].split("::")[-1], t[2], t[3]))
+    return " ".join(out)
 
 
 def _sel():
@@ -102,6 +285,9 @@ def rule_R1_R2(P, rep):
         n_ok = 0
         waits_seen = False
         for toks, kind, rv, rtxt in ps:
+            toks = _expand(F, toks)
+            if toks is None:
+                continue        # infeasible: a local disagrees with the operands it was computed from
             why1, why2 = [], []
             acc = [i for i, t in enumerate(toks) if (t[0] == "if" and (t[1] in ("writer", "readers") or WF in t[1] or RC in t[1])) or
                    t[0] in ("st", "rd")]
@@ -130,8 +316,13 @@ def rule_R1_R2(P, rep):
             conds = [t for t in toks if t[0] == "if" and t[1] in ("writer", "readers")]
             # every condition evaluated while the mutex is held must be one of the documented wait conditions
             allowed = {"writer", "wait-err"} | ({"readers"} if writer else set())
-            extra = sorted(set(t[1][6:] if t[1].startswith("other:") else RC for i, t in enumerate(toks)
-                               if t[0] == "if" and _held(toks, i) and t[1] not in allowed))
+
+            def ok_test(lab):
+                if lab.startswith("combo@"):    # a combination of allowed atoms is allowed
+                    return set(lab.split(":", 1)[1].split("+")) <= allowed
+                return lab in allowed
+            extra = sorted(set(t[1][6:] if t[1].startswith("other:") else t[1].split(":")[-1] for i, t in enumerate(toks)
+                               if t[0] == "if" and _held(toks, i) and not ok_test(t[1])))
             if extra:
                 why2.append("%s also waits on %s (a %s must wait %s)" % (
                     "writer" if writer else "reader", extra, "writer" if writer else "reader",
@@ -144,8 +335,8 @@ def rule_R1_R2(P, rep):
             if rv == 0:
                 n_ok += 1
                 want = [("ABTI_rwlock::write_flag", "=", 1)] if writer else [("ABTI_rwlock::reader_count", "++", None)]
-                if [(t[1], t[2], t[3]) for t in stores] != want:
-                    why2.append("success path stores %s, expected %s" % ([(t[1], t[2], t[3]) for t in stores], want))
+                if [_norm(t) for t in stores] != want:
+                    why2.append("success path stores %s, expected %s" % ([_norm(t) for t in stores], want))
                 else:
                     st = [i for i, t in enumerate(toks) if t[0] == "st"][0]
                     # the last evaluation of the wait condition before the store must be false for every conjunct
@@ -163,8 +354,9 @@ def rule_R1_R2(P, rep):
             else:
                 if stores:
                     why2.append("error path changes the lock state")
-            rep.ob("R2", "%s path -> %s [%s]" % (fn, rtxt, show(toks)[:260]), not why2, "; ".join(why2), loc=F.file,
-                   site="%s/%s/%s" % (fn, rtxt, show(toks)[:200]))
+            rep.ob("R2", "%s path -> %s [%s]" % (fn, rv if rv is not None else "error code of the wait", _sig(toks)[:600]),
+                   not why2, "; ".join(why2), loc=F.file,
+                   site="%s/%s/%s" % (fn, rv if rv is not None else "err", _sig(toks)[:600]))
         rep.need(n_ok >= 1 and waits_seen, "%s: no success path or no waiting path" % fn)
     rep.min_instances("R2", 6)
 
@@ -174,6 +366,9 @@ def rule_R3(P, rep):
     kinds = set()
     for toks, kind, rv, rtxt in seq.sequences(F, _sel()):
         if kind != "ret" or rv != 0:
+            continue
+        toks = _expand(F, toks)
+        if toks is None:
             continue
         why = []
         stores = [(i, t) for i, t in enumerate(toks) if t[0] == "st"]
@@ -186,7 +381,7 @@ def rule_R3(P, rep):
             k = "reader"
             want = ("ABTI_rwlock::reader_count", "--", None)
         kinds.add(k)
-        if len(stores) != 1 or (stores[0][1][1], stores[0][1][2], stores[0][1][3]) != want:
+        if len(stores) != 1 or _norm(stores[0][1]) != want:
             why.append("stores %s, expected %s" % ([s[1][1:4] for s in stores], want))
         if len(bc) != 1 or len(un) != 1:
             why.append("must broadcast once and unlock once")
@@ -216,6 +411,8 @@ def rule_R4(P, rep):
 
 
 def run(P, rep, tier):
+    if tier == "thorough":
+        common.rule_X4(P, rep)
     common.run_shared(P, rep, which=("X2", "X3"))
     rule_R1_R2(P, rep)
     rule_R3(P, rep)
